@@ -42,6 +42,9 @@ pub enum Pending {
     None,
     Mine(Vec<Vec<TxRef>>),
     Reorg(usize, Vec<Vec<TxRef>>),
+    /// mined by the chain thread itself, as its first step inside the concurrent phase (a node event that is
+    /// concurrent with the requests), then polled
+    MineConcurrently(Vec<Vec<TxRef>>),
 }
 
 pub struct Scenario {
@@ -175,6 +178,7 @@ pub fn execute(sc: &Scenario, mode: &Mode, dir: &PathBuf) -> ExecResult {
                 Pending::None => {}
                 Pending::Mine(b) => world.mine(b, 1),
                 Pending::Reorg(d, b) => world.reorg(*d, b, 1),
+                Pending::MineConcurrently(_) => {}
             }
             log_start.set(world.log.len());
             // thread ids are handed out here, in a fixed order
@@ -205,6 +209,9 @@ pub fn execute(sc: &Scenario, mode: &Mode, dir: &PathBuf) -> ExecResult {
                 sched.go();
                 let r = catch_unwind(AssertUnwindSafe(|| {
                     sched.thread_start();
+                    if let Pending::MineConcurrently(b) = &sc.pending {
+                        world.mine(b, 1);
+                    }
                     if sc.poll {
                         s.poller.poll();
                     }
@@ -288,6 +295,7 @@ pub fn execute_real(sc: &Scenario, seed: u64, dir: &PathBuf) -> ExecResult {
             Pending::None => {}
             Pending::Mine(b) => world.mine(b, 1),
             Pending::Reorg(d, b) => world.reorg(*d, b, 1),
+            Pending::MineConcurrently(_) => {}
         }
         log_start = world.log.len();
         if let crate::tower::Api::Remote(r) = &s.api {
@@ -306,6 +314,9 @@ pub fn execute_real(sc: &Scenario, seed: u64, dir: &PathBuf) -> ExecResult {
             }
             let mut out = Vec::new();
             std::thread::sleep(std::time::Duration::from_micros(delays[sc.api.len()]));
+            if let Pending::MineConcurrently(b) = &sc.pending {
+                world.mine(b, 1);
+            }
             let st = if sc.poll {
                 match btc.grant_poll(std::time::Duration::from_secs(30), &mut || true) {
                     Ok(()) => "done".to_string(),
@@ -635,6 +646,44 @@ pub fn scenarios(seed: u64, dir: &PathBuf) -> Vec<Scenario> {
             out.push(Scenario { pending: Pending::Mine(vec![vec![TxRef::Dispute(2), TxRef::Dispute(3)]]), name: "add+info-vs-dispute-block".into(), prep, api: vec![vec![COp::Add { ver: v2, sig }], vec![COp::GetSub { sig: gs }]], poll: true, connects: 1, desc: "add_appointment and get_subscription_info concurrent with a block holding two disputes".into() });
         }
     }
+    // S13: a late appointment whose penalty is already confirmed in the tip block (somebody else broadcast it),
+    // concurrent with a reorg that disconnects that very block: whichever comes first, the tracker must not end up
+    // 'confirmed' in a block that is not in the chain any more
+    {
+        let mut b = Builder::new(seed, next_id(), dir, 5, 500, 6);
+        b.push(Op::Register { user: 0 });
+        let v = b.version(0, BlobKind::Valid, 300);
+        let sig = b.sig_add(0, v);
+        b.mine_poll(vec![vec![TxRef::Dispute(0), TxRef::Penalty(v)]]);
+        if let Ok(prep) = b.freeze() {
+            out.push(Scenario { pending: Pending::Reorg(1, vec![vec![TxRef::Filler(21)], vec![TxRef::Filler(22)]]), name: "late-add-vs-reorg-of-penalty-block".into(), prep, api: vec![vec![COp::Add { ver: v, sig }]], poll: true, connects: 2, desc: "an appointment whose dispute and penalty sit in the tip block, concurrent with the reorg that disconnects that block".into() });
+        }
+    }
+    // S14: an appointment concurrent with the block that holds both its dispute and its penalty
+    {
+        let mut b = Builder::new(seed, next_id(), dir, 5, 500, 6);
+        b.push(Op::Register { user: 0 });
+        let v = b.version(1, BlobKind::Valid, size(&mut rng));
+        let sig = b.sig_add(0, v);
+        if let Ok(prep) = b.freeze() {
+            out.push(Scenario { pending: Pending::Mine(vec![vec![TxRef::Dispute(1), TxRef::Penalty(v)]]), name: "add-vs-block-with-dispute-and-penalty".into(), prep, api: vec![vec![COp::Add { ver: v, sig }]], poll: true, connects: 1, desc: "add_appointment concurrent with the block that contains its dispute and (broadcast by somebody else) its penalty".into() });
+        }
+    }
+    // S15: a dispute already in the window; user 0 submits the appointment late (the penalty goes to the node's mempool,
+    // its receipt into the Carrier's cache), the node then mines the penalty (a node event inside the concurrent phase),
+    // user 1 submits the same appointment: whatever the order, trackers that exist end up confirmed in that block
+    {
+        let mut b = Builder::new(seed, next_id(), dir, 5, 500, 6);
+        b.push(Op::Register { user: 0 });
+        b.push(Op::Register { user: 1 });
+        let v = b.version(2, BlobKind::Valid, 300);
+        b.mine_poll(vec![vec![TxRef::Dispute(2)]]);
+        let s0 = b.sig_add(0, v);
+        let s1 = b.sig_add(1, v);
+        if let Ok(prep) = b.freeze() {
+            out.push(Scenario { pending: Pending::MineConcurrently(vec![vec![TxRef::Penalty(v)]]), name: "two-late-adds-vs-block-confirming-penalty".into(), prep, api: vec![vec![COp::Add { ver: v, sig: s0 }], vec![COp::Add { ver: v, sig: s1 }]], poll: true, connects: 1, desc: "two users submit an appointment for a dispute already in the window while the node mines the penalty and the tower processes that block".into() });
+        }
+    }
     out
 }
 
@@ -677,7 +726,9 @@ pub fn run(seed: u64, shard: u64, nshards: u64, schedules_per_scenario: u64, fre
                     ref_problem = Some((script.clone(), r));
                     break;
                 }
-                horizon = horizon.max(r.decisions.len());
+                // scheduling points = lock acquisitions (recorded as decisions) + their releases + thread starts / block
+                // boundaries: change points must be able to fall anywhere in the execution, not only in its first half
+                horizon = horizon.max(2 * r.decisions.len() + 8);
                 refs.insert(r.outcome);
             }
         }
@@ -839,11 +890,18 @@ fn diff_against(got: &Outcome, refs: &BTreeSet<Outcome>) -> (String, String) {
         }
         let g: BTreeSet<&String> = got.db.iter().collect();
         let rr: BTreeSet<&String> = r.db.iter().collect();
+        // an appointment row present on both sides that differs in nothing but the height it was accepted at
+        let strip = |x: &str| x.split(' ').filter(|f| !f.starts_with("start_block=")).collect::<Vec<_>>().join(" ");
+        let only_start_block = |x: &String| x.starts_with("A ") && g.iter().chain(rr.iter()).filter(|y| ***y != *x && strip(y) == strip(x)).count() == 1;
         for x in g.symmetric_difference(&rr) {
             l.insert(match x.chars().next() {
                 Some('U') => "db.balances".to_string(),
+                Some('A') if only_start_block(x) => "db.appointment-start-block".to_string(),
                 Some('A') => "db.appointments".to_string(),
-                Some('T') => "db.trackers".to_string(),
+                // a tracker present on both sides with another confirmation state / only in the sequential outcome / only observed
+                Some('T') if g.iter().chain(rr.iter()).any(|y| ***y != **x && y.starts_with("T ") && y.split(' ').nth(1) == x.split(' ').nth(1)) => "db.tracker-confirmation".to_string(),
+                Some('T') if rr.contains(x) => "db.tracker-missing".to_string(),
+                Some('T') => "db.tracker-extra".to_string(),
                 _ => "db.other".to_string(),
             });
         }
@@ -852,7 +910,16 @@ fn diff_against(got: &Outcome, refs: &BTreeSet<Outcome>) -> (String, String) {
         }
         l
     }
-    let best = refs.iter().map(|r| (labels(got, r), r)).min_by_key(|(l, _)| l.len());
+    // nearest = the sequential outcome that explains most: first the fewest differences in durable state / broadcasts
+    // other than "the height a request was accepted at" (the start_block column), then the fewest differences in that
+    // column, then the fewest differing reply fields. A request that lands inside a block event is thereby explained by
+    // the order that differs in that height only, if there is one, rather than by one that lacks a row.
+    let key = |l: &BTreeSet<String>| {
+        let state = l.iter().filter(|x| x.starts_with("db.") || *x == "rpcs").count();
+        let sb = l.iter().filter(|x| *x == "db.appointment-start-block").count();
+        (state - sb, sb, l.len())
+    };
+    let best = refs.iter().map(|r| (labels(got, r), r)).min_by_key(|(l, _)| key(l));
     match best {
         None => ("no reference outcome".into(), "noref".into()),
         Some((l, r)) => {
